@@ -98,3 +98,359 @@ def _symbolic_for(I, st, frame, it, spec):
 
 
 models.register_hook('symbolic_for', _symbolic_for)
+
+
+# ---------------------------------------------------------------------------
+# abstract strings, symbolic-length lists of records, dict views over them
+# ---------------------------------------------------------------------------
+
+_STR_IDS = {}
+
+
+def str_id(s):
+    """concrete strings are interned as distinct negative integers"""
+    if s not in _STR_IDS:
+        _STR_IDS[s] = -(len(_STR_IDS) + 1)
+    return _STR_IDS[s]
+
+
+_F_EXT = z3.Function('str.splitext_ext', z3.IntSort(), z3.IntSort())
+_F_ROOT = z3.Function('str.splitext_root', z3.IntSort(), z3.IntSort())
+_F_TAIL = z3.Function('str.slice_from', z3.IntSort(), z3.IntSort(), z3.IntSort())
+
+
+class AbsStr:
+    """string known only up to equality (z3 Int id)"""
+
+    def __init__(self, sid):
+        self.sid = sid
+
+    @staticmethod
+    def of(x):
+        if isinstance(x, AbsStr):
+            return x.sid
+        if isinstance(x, str):
+            return str_id(x)
+        return None
+
+    def model_value(self, model):
+        return 'str#%s' % model.eval(self.sid, model_completion=True)
+
+
+class AbsVal:
+    """abstract value of an uninterpreted kind (reader classes, ...), identity = z3 Int"""
+
+    def __init__(self, vid, kind='val', calls=None):
+        self.vid = vid
+        self.kind = kind
+        self.calls = calls or {}
+
+    def model_value(self, model):
+        return '%s#%s' % (self.kind, model.eval(self.vid, model_completion=True))
+
+
+class SymList:
+    """list of unknown length n whose i-th element is get(i) (a tuple of abstract
+    values).  Mutable with identity, like a Python list; content is functional."""
+
+    def __init__(self, n, get, tag='list'):
+        self.n = n
+        self.get = get
+        self.tag = tag
+        self.mutations = []
+
+    def copy(self):
+        return SymList(self.n, self.get, self.tag + '.copy')
+
+    def insert0(self, x):
+        old, n0 = self.get, self.n
+        self.get = lambda i: _ite_val(sym.eq(i, 0), x, old(sym.sub(i, 1)))
+        self.n = sym.add(n0, 1)
+        self.mutations.append('insert')
+
+    def append(self, x):
+        old, n0 = self.get, self.n
+        self.get = lambda i: _ite_val(sym.eq(i, n0), x, old(i))
+        self.n = sym.add(n0, 1)
+        self.mutations.append('append')
+
+    def havoc(self, I):
+        self.mutations.append('havoc')
+        n = I.ctx.fresh('havoc_len')
+        I.ctx.assume(sym.ge(n, 0))
+        self.n = n
+        tagf = I.ctx.fresh('havoc_fn')
+        old = self.get
+        self.get = lambda i: _map_val(old(i), lambda v: z3.Int('havoc_%s_%s' % (tagf, v)) if False else v)
+        self.get = lambda i: _havoc_elem(old(0), tagf, i)
+
+
+def _havoc_elem(proto, tagf, i):
+    f = z3.Function('havoc_elem_%s' % tagf, z3.IntSort(), z3.IntSort(), z3.IntSort())
+    if isinstance(proto, tuple):
+        return tuple(_rebuild(p, f(i, k)) for k, p in enumerate(proto))
+    return _rebuild(proto, f(i, 0))
+
+
+def _rebuild(p, term):
+    if isinstance(p, AbsStr):
+        return AbsStr(term)
+    if isinstance(p, AbsVal):
+        return AbsVal(term, p.kind, p.calls)
+    return term
+
+
+def _ite_val(c, a, b):
+    if isinstance(a, tuple):
+        return tuple(_ite_val(c, x, y) for x, y in zip(a, b))
+    if isinstance(a, AbsStr) or isinstance(b, AbsStr):
+        return AbsStr(sym.ite(c, AbsStr.of(a), AbsStr.of(b)))
+    if isinstance(a, AbsVal):
+        return AbsVal(sym.ite(c, a.vid, b.vid), a.kind, a.calls)
+    return sym.ite(c, a, b)
+
+
+def _map_val(v, f):
+    if isinstance(v, tuple):
+        return tuple(_map_val(x, f) for x in v)
+    return f(v)
+
+
+def val_eq(a, b):
+    if isinstance(a, tuple) and isinstance(b, tuple):
+        return sym.And(*[val_eq(x, y) for x, y in zip(a, b)])
+    sa, sb = AbsStr.of(a), AbsStr.of(b)
+    if sa is not None and sb is not None:
+        return sym.eq(sa, sb)
+    if isinstance(a, AbsVal) and isinstance(b, AbsVal):
+        return sym.eq(a.vid, b.vid)
+    if isinstance(a, (AbsVal, AbsStr)) or isinstance(b, (AbsVal, AbsStr)):
+        return False
+    return sym.eq(a, b)
+
+
+def symlist_same(lst, n0, get0):
+    """content of lst equals the snapshot (n0, get0): length and every element"""
+    j = z3.Int('frame_j')
+    body = sym.Implies(sym.And(sym.ge(j, 0), sym.lt(j, n0)), val_eq(lst.get(j), get0(j)))
+    q = z3.ForAll([j], body) if is_sym(body) else body
+    return sym.And(sym.eq(lst.n, n0), q)
+
+
+class SymDict:
+    """dict(SymList of (key, value)): later entries win"""
+
+    def __init__(self, lst):
+        self.n, self.get = lst.n, lst.get
+
+
+def _compare_hook(I, op, a, b):
+    if isinstance(a, (AbsStr, AbsVal)) or isinstance(b, (AbsStr, AbsVal)):
+        if isinstance(op, (ast.Eq, ast.NotEq)):
+            r = val_eq(a, b)
+            return r if isinstance(op, ast.Eq) else sym.Not(r)
+        if isinstance(op, (ast.Is, ast.IsNot)):
+            if a is None or b is None:
+                return isinstance(op, ast.IsNot)
+            r = val_eq(a, b)
+            return r if isinstance(op, ast.Is) else sym.Not(r)
+    return None
+
+
+models.register_hook('compare', _compare_hook)
+
+
+def _contains_hook(I, c, x):
+    if isinstance(c, SymDict):
+        w = I.ctx.fresh('wit')
+        j = z3.Int('dict_j')
+        b = I.ctx.fresh('haskey', 'Bool')
+        key = lambda i: c.get(i)[0]
+        inr = lambda i: sym.And(sym.ge(i, 0), sym.lt(i, c.n))
+        I.ctx.assume(sym.Implies(b, sym.And(inr(w), val_eq(key(w), x))))
+        I.ctx.assume(sym.Implies(sym.Not(b), z3.ForAll([j], sym.Implies(inr(j), sym.Not(val_eq(key(j), x))))))
+        return b
+    if isinstance(c, SymList):
+        w = I.ctx.fresh('wit')
+        j = z3.Int('list_j')
+        b = I.ctx.fresh('member', 'Bool')
+        inr = lambda i: sym.And(sym.ge(i, 0), sym.lt(i, c.n))
+        I.ctx.assume(sym.Implies(b, sym.And(inr(w), val_eq(c.get(w), x))))
+        I.ctx.assume(sym.Implies(sym.Not(b), z3.ForAll([j], sym.Implies(inr(j), sym.Not(val_eq(c.get(j), x))))))
+        return b
+    return None
+
+
+models.register_hook('contains', _contains_hook)
+
+
+def _getitem_hook(I, obj, idx):
+    if isinstance(obj, SymDict):
+        # value of the LAST entry with that key (dict construction order)
+        L = I.ctx.fresh('last')
+        j = z3.Int('dict_j')
+        key = lambda i: obj.get(i)[0]
+        inr = lambda i: sym.And(sym.ge(i, 0), sym.lt(i, obj.n))
+        has = _contains_hook(I, obj, idx)
+        if not I.ctx.branch(has):
+            raise PyExc('KeyError')
+        I.ctx.assume(sym.And(inr(L), val_eq(key(L), idx),
+                             z3.ForAll([j], sym.Implies(sym.And(sym.gt(j, L), sym.lt(j, obj.n)),
+                                                        sym.Not(val_eq(key(j), idx))))))
+        return obj.get(L)[1]
+    if isinstance(obj, AbsStr):
+        if isinstance(idx, slice) and idx.stop is None and idx.step is None and isinstance(idx.start, int):
+            return AbsStr(_F_TAIL(obj.sid, idx.start))
+        raise Unsupported('indexing abstract string')
+    if isinstance(obj, SymList):
+        if isinstance(idx, slice):
+            raise Unsupported('slice of symbolic list')
+        i = sym.ite(sym.lt(idx, 0), sym.add(idx, obj.n), idx)
+        if I.ctx.branch(sym.Or(sym.lt(i, 0), sym.ge(i, obj.n))):
+            raise PyExc('IndexError')
+        return obj.get(i)
+    return None
+
+
+models.register_hook('getitem', _getitem_hook)
+
+
+def _splitext(I, p):
+    if isinstance(p, AbsStr):
+        return (AbsStr(_F_ROOT(p.sid)), AbsStr(_F_EXT(p.sid)))
+    return None
+
+
+models.register_hook('splitext_', _splitext)
+
+
+def _len2(I, x):
+    if isinstance(x, (SymList, SymDict)):
+        return x.n
+    return None
+
+
+models.register_hook('len_', _len2)
+
+
+def _value_getattr(I, obj, name):
+    from .exec import BoundModel
+    if isinstance(obj, SymList):
+        if name == 'insert':
+            def ins(I, r, args, kw):
+                pos, x = args
+                if is_sym(pos) or pos != 0:
+                    raise Unsupported('SymList.insert at position other than 0')
+                r.insert0(x)
+            return BoundModel(ins, obj)
+        if name == 'append':
+            def app(I, r, args, kw):
+                r.append(args[0])
+            return BoundModel(app, obj)
+        if name == 'copy':
+            return BoundModel(lambda I, r, a, k: r.copy(), obj)
+    if isinstance(obj, AbsVal):
+        if name in obj.calls:
+            return obj.calls[name](I, obj)
+        if name == '__doc__':
+            return None
+    return None
+
+
+models.register_hook('value_getattr', _value_getattr)
+
+
+def _iterate(I, v):
+    if isinstance(v, SymList):
+        raise Unsupported('iteration over a symbolic list needs a loop invariant / comprehension rule')
+    return None
+
+
+models.register_hook('iterate', _iterate)
+
+
+def _symbolic_for_list(I, st, frame, it, spec):
+    """for x in <SymList> with invariant: index based cut point"""
+    if not isinstance(it, SymList):
+        return None
+    hidden = '__idx_%d' % st.lineno
+    frame.locals[hidden] = 0
+    proto = it.get(z3.Int('proto'))
+    frame.locals.setdefault('__dummy', None)
+    # loop variables must exist to be havocked
+    I.assign(st.target, it.get(0), frame)
+
+    def cond():
+        return sym.lt(frame.locals[hidden], it.n)
+
+    def pre_body():
+        I.assign(st.target, it.get(frame.locals[hidden]), frame)
+
+    def step():
+        frame.locals[hidden] = sym.add(frame.locals[hidden], 1)
+    frame.loop_index_name = hidden
+    I.cutpoint_loop(st, frame, spec, cond, step=({hidden}, step), pre_body=pre_body)
+    return True
+
+
+models.register_hook('symbolic_for', _symbolic_for_list)
+
+
+def _comprehension(I, e, frame):
+    """[elt for tgt in <SymList> if cond]  ->  fresh SymList (filter/map kept abstract:
+    only freshness and 'every element comes from the source' are known)"""
+    if len(e.generators) != 1:
+        return None
+    g = e.generators[0]
+    try:
+        src = I.eval(g.iter, frame)
+    except (PyExc, Unsupported):
+        return None
+    if not isinstance(src, SymList):
+        if hasattr(src, 'is_sarr'):
+            from . import nparr
+            return nparr.comprehension(I, e, frame, src)
+        return None
+    from .exec import Frame
+    if not g.ifs:
+        # exact map rule: out[i] = elt(src[i])
+        def get_exact(i):
+            cf = Frame(frame.func, {}, frame)
+            I.assign(g.target, src.get(i), cf)
+            return I.eval(e.elt, cf)
+        return SymList(src.n, get_exact, 'map')
+    n = I.ctx.fresh('comp_len')
+    I.ctx.assume(sym.And(sym.ge(n, 0), sym.le(n, src.n)))
+    pick = z3.Function('comp_pick_%s' % n, z3.IntSort(), z3.IntSort())
+    k = z3.Int('comp_k')
+    I.ctx.assume(z3.ForAll([k], sym.Implies(sym.And(sym.ge(k, 0), sym.lt(k, n)),
+                                            sym.And(sym.ge(pick(k), 0), sym.lt(pick(k), src.n)))))
+    I.ctx.trust('comprehension over a symbolic list: result is a fresh list whose elements are images of source elements (order/filter abstracted)')
+
+    def get(i):
+        cf = Frame(frame.func, {}, frame)
+        I.assign(g.target, src.get(pick(i)), cf)
+        return I.eval(e.elt, cf)
+    return SymList(n, get, 'comprehension')
+
+
+models.register_hook('symbolic_comprehension', _comprehension)
+
+
+def _list_ctor(I, args, kw):
+    if args and isinstance(args[0], SymList):
+        return args[0].copy()
+    if args and isinstance(args[0], SymDict):
+        raise Unsupported('list(SymDict)')
+    return models._list(I, args, kw)
+
+
+def _dict_ctor(I, args, kw):
+    if args and isinstance(args[0], SymList) and not kw:
+        return SymDict(args[0])
+    return models._dict(I, args, kw)
+
+
+from .exec import Builtin  # noqa
+models._REG['builtins.list'] = Builtin('builtins.list', _list_ctor)
+models._REG['builtins.dict'] = Builtin('builtins.dict', _dict_ctor)
